@@ -216,6 +216,7 @@ def main() -> int:
     ap.add_argument("--workers", type=int, default=4)
     ap.add_argument("--out", default="/dev/shm/mutate")
     ap.add_argument("--suite", action="store_true")
+    ap.add_argument("--check-workers", type=int, default=8)
     ap.add_argument("--offset", type=int, default=0, help="rotate the evenly spaced selection (to draw a different sample)")
     args = ap.parse_args()
     out = Path(args.out)
@@ -277,12 +278,12 @@ def main() -> int:
             except SyntaxError as e:
                 return {"prop": pid, "file": f, "func": q, "mutation": desc, "result": "invalid", "why": f"syntax: {e}"}
             (wt / f).write_text(new_src)
-            env = dict(os.environ, VERIF_REPO=str(wt), VERIF_SEED="0", VF_KEEP_EVIDENCE="1")
+            env = dict(os.environ, VERIF_REPO=str(wt), VERIF_SEED="0", VF_KEEP_EVIDENCE="1", VF_FAIL_FAST="1")
             if not f.endswith("kernels.py"):
                 env["VF_TREE_HASH"] = f"mutate-worker-{w}"  # kernels untouched: the numba cache of this worktree stays valid
             else:
                 env["VF_TREE_HASH"] = f"mutate-worker-{w}-k"
-            rc, outp = sh([str(VERIF / "check"), pid, "--tier", "quick", "--workers", "4"], cwd=str(VERIF), env=env, timeout=3000)
+            rc, outp = sh([str(VERIF / "check"), pid, "--tier", "quick", "--workers", str(args.check_workers)], cwd=str(VERIF), env=env, timeout=3000)
             if rc == 1 and f"VIOLATION property={pid}" in outp:
                 res = "killed"
             elif rc == 0:
@@ -308,6 +309,8 @@ def main() -> int:
         with ThreadPoolExecutor(max_workers=args.workers) as ex:
             for r in ex.map(run, jobs):
                 results.append(r)
+                with open(out / "results.jsonl", "a") as fp:
+                    fp.write(json.dumps(r) + "\n")
                 print(json.dumps({k: v for k, v in r.items() if k not in ("diff", "tail")}), flush=True)
     finally:
         for wt in wts:
